@@ -187,6 +187,9 @@ m('M110-merkle-flags-anded', ['C12', 'C01'], (F, "\tmerkleCap variables.FriMerkl
 m('M113-fri-chip-cached-globally', ['C14', 'C13', 'C01'], (F, "\tposeidonBN254Chip := poseidon.NewBN254Chip(api)\n\treturn &Chip{", "\tif lastChip != nil && lastChip.api == api {\n\t\treturn lastChip\n\t}\n\tposeidonBN254Chip := poseidon.NewBN254Chip(api)\n\tlastChip = &Chip{"), (F, "\t\tgl:                gl.New(api),\n\t}\n}", "\t\tgl:                gl.New(api),\n\t}\n\treturn lastChip\n}\n\nvar lastChip *Chip"))
 m('M114-verify-recovers', ['C20'], (V, "func (c *VerifierChip) Verify(", "func swallow() {\n\t_ = recover()\n}\n\nfunc (c *VerifierChip) Verify("), (V, "\tc.rangeCheckProof(proof)\n", "\tdefer swallow()\n\tc.rangeCheckProof(proof)\n"))
 
+m('M115-sub-constant-fastpath', ['C07', 'C05'], (B, "func (p *Chip) Sub(a Variable, b Variable) Variable {\n", "func (p *Chip) Sub(a Variable, b Variable) Variable {\n\tif v, ok := p.api.Compiler().ConstantValue(a.Limb); ok && v.Sign() == 0 {\n\t\treturn NewVariable(p.api.Sub(MODULUS, b.Limb))\n\t}\n"))
+m('M116-productaccs-aliasing-append', ['C16'], (P, "\tproductAccs := make([]gl.QuadraticExtensionVariable, 0, numPartProds+2)\n\tproductAccs = append(productAccs, openings.PlonkZs[challengeNum])\n", "\tproductAccs := openings.PlonkZs[challengeNum : challengeNum+1]\n"))
+
 # ---- behaviour-preserving refactors: must stay silent on every property
 ALL = ['C01', 'C02', 'C03', 'C04', 'C05', 'C06', 'C07', 'C08', 'C09', 'C10', 'C11', 'C12', 'C13', 'C14', 'C15', 'C16', 'C17', 'C18', 'C19', 'C20']
 m('R02-inline-assertLeadingZeros', [], (F, "\tf.assertLeadingZeros(friChallenges.FriPowResponse, f.friParams.Config)\n", "\tf.gl.RangeCheckWithMaxBits(friChallenges.FriPowResponse, 64-f.friParams.Config.ProofOfWorkBits)\n"))
